@@ -291,6 +291,8 @@ pub enum ByteOp {
     Append(Hx),
     Delete { at: usize, len: usize },
     Insert { at: usize, bytes: Hx },
+    /// `count` repetitions of `pattern` inserted at `at` (None: appended)
+    Run { at: Option<usize>, pattern: Hx, count: usize },
 }
 
 impl ByteOp {
@@ -302,6 +304,7 @@ impl ByteOp {
             ByteOp::Append(_) => "extend",
             ByteOp::Delete { .. } => "delete",
             ByteOp::Insert { .. } => "insert",
+            ByteOp::Run { .. } => "long-run",
         }
     }
     pub fn apply(&self, v: &mut Vec<u8>) -> bool {
@@ -350,6 +353,19 @@ impl ByteOp {
                     v.insert(at + i, *b);
                 }
                 !bytes.is_empty()
+            }
+            ByteOp::Run { at, pattern, count } => {
+                let at = match at {
+                    Some(a) => a % (v.len() + 1),
+                    None => v.len(),
+                };
+                let mut run = Vec::with_capacity(pattern.len() * count);
+                for _ in 0..*count {
+                    run.extend_from_slice(pattern);
+                }
+                let n = run.len();
+                v.splice(at..at, run);
+                n > 0
             }
         }
     }
